@@ -76,6 +76,7 @@ def run(ctx, R):
             # so that the characters after it are delivered (rule shared with C17)
             from . import c17
             c17.consuming_reads(F, R, "C18")
+            peeks_report_bad_bytes(F, R)
             # ---- RF3: ranges with a constant bound ------------------------------------------------------
             n_rng = 0
             for p in sc:
@@ -225,3 +226,38 @@ def run(ctx, R):
         }
         ref = streams.sibling_group(F, R, "C18" + tag, "input-interface", fns, variants)
         R.notes.append("config %s: %d stream kinds, %d input-capable" % (cfg, len(variants), len(ref)))
+
+
+def peeks_report_bad_bytes(F, R):
+    """peek_char/2 and peek_code/2 look at the next character through Stream::peek_char, which answers None at the end
+    of the input and Some(Err(InvalidData)) for bytes that are not UTF-8. An arm that sends both to eof_action takes bad
+    bytes for the end of the stream: the peek answers end_of_file, the stream is marked past its end, and the
+    characters after the bad bytes are never delivered (get_char/2 alone reports the error and goes on). The match on
+    the peeked result has an arm of its own for a decoding error, and that arm raises an error."""
+    import re
+    n = 0
+    for nm in ("peek_char", "peek_code"):
+        c = [p for p in F.items if re.search(r"system_calls::<impl machine::Machine>::%s$" % nm, p)]
+        if len(c) != 1:
+            raise AnchorLost("Machine::%s (%d)" % (nm, len(c)))
+        body = F.hir(c[0])["body"]
+        peeked = {x["pat"].get("name") for x in walk(body) if x["k"] == "Let" and "init" in x and x["pat"].get("k") == "PBind"
+                  and any(y["k"] == "MethodCall" and y["name"] == "peek_char" for y in walk(x["init"]))}
+        ms = [m for m in walk(body) if m["k"] == "Match" and any((x["k"] == "MethodCall" and x["name"] == "peek_char") or
+                                                                  (x["k"] == "Path" and x.get("res", {}).get("local") in peeked) for x in walk(m["scrut"]))]
+        if not ms:
+            raise AnchorLost("Machine::%s: match on Stream::peek_char" % nm)
+        ok = False
+        for m in ms:
+            n += 1
+            for arm in m["arms"]:
+                is_err = any(x.get("k") == "PTupleStruct" and (x.get("res", {}).get("def") or "").endswith("::Err") for x in walk(arm["pat"]))
+                raises = any(x["k"] == "MethodCall" and x["name"] == "error_form" for x in walk(arm["body"])) and any(x["k"] == "Ret" for x in walk(arm["body"]))
+                to_eof = any(x["k"] == "MethodCall" and x["name"] == "eof_action" for x in walk(arm["body"]))
+                if is_err and raises and not to_eof:
+                    ok = True
+        R.ob("C18:peek:%s:a-decoding-error-is-an-error-not-the-end-of-the-stream" % nm, ok,
+             "Machine::%s has no arm of its own for Some(Err(..)) from Stream::peek_char that raises: bytes that are not UTF-8 fall into the arm that runs the end-of-file action, the "
+             "peek answers end_of_file and the rest of the stream is lost" % nm, F.where(c[0]))
+    R.floor("matches on the peeked character", n, 2)
+
